@@ -11,7 +11,8 @@ LEVEL = ("Static analysis of every dataset operation in linfa's dataset module t
          "raw-buffer head and tail / index_axis / collapse_axis / in-place axis slicing, normalised to row-space and "
          "column-space selectors). The row selector of the targets must equal that of the records; weights must carry the same "
          "row selector or be the empty array; names must carry the same column selector as their container or be dropped; the "
-         "label filter pushes record, target, weight and label counts under one condition. Holds for all datasets and all "
+         "label filter pushes record, target, weight and label counts under one condition; the raw-buffer split of owned data is "
+         "dominated by a standard-layout test. Holds for all datasets and all "
          "ratios/indices at once. That the selector itself is the documented one (ceil(ratio*n), a permutation, in-range "
          "indices) is a property of values and is not decided.")
 ASSUME = ["rustc resolution/typeck; HIR faithfully dumped", "documented semantics of ndarray's select / split_at / slice / index_axis / collapse_axis and Vec::split_off"]
